@@ -711,3 +711,26 @@ fn u7_clone_of_dead_handle_aborts() {
     kani::cover!(true, "RETURNED-FROM-ABORT");
     core::mem::forget((c, a));
 }
+
+/// C12: make_mut's steal branch (sole strong handle, Weak handles outstanding) on an object that has adopted
+/// a peer must not leave the peer naming the given-up allocation (second site of finding D6)
+#[kani::proof]
+#[kani::unwind(6)]
+#[kani::stub(crate::drop::drop_unreachable_with_adoptions, stub_dua)]
+#[kani::stub(crate::drop::drop_cycle, stub_dc)]
+#[kani::stub(crate::rc::Rc::orphaned_cycle, stub_oc)]
+#[kani::stub(crate::drop::drop_unreachable, stub_du_contract)]
+fn u8_make_mut_steal_adopted() {
+    let mut a = Rc::new(1u8);
+    let b = Rc::new(2u8);
+    install(&a, fwd(&b), 2);
+    install(&b, bwd(&a), 2);
+    set_counts(&a, 1, 2);
+    let fa = fwd(&a);
+    let ba = bwd(&a);
+    let old = alias(&a);
+    let _ = Rc::make_mut(&mut a);
+    kani::assert(a.ptr != old.ptr, "U8.make_mut_steal_adopted.moved_to_a_new_allocation");
+    kani::assert(cnt(&b, ba) == 0 && cnt(&b, fa) == 0, "U8.make_mut_steal_adopted.no_peer_record_names_the_given_up_allocation");
+    core::mem::forget((a, b, old));
+}
